@@ -874,8 +874,41 @@ pub fn c11_hands(rng: &mut Rng, thorough: bool) -> Vec<Vec<u32>> {
 
 /// deck indices that alias an in-range index when a part of the computation is done in a narrower integer or a quotient /
 /// remainder is truncated: k + m * 2^j, k + 13 * 2^j * m, k + 52 * 2^j * m, for k < 52 and a few beyond
+/// the same words written into an existing hand slot by slot
+pub fn five_via_setters(base: Five, w: [u32; 5]) -> Five {
+    let mut m = base;
+    m.set_first(w[0]);
+    m.set_second(w[1]);
+    m.set_third(w[2]);
+    m.set_forth(w[3]);
+    m.set_fifth(w[4]);
+    m
+}
+
+/// numbers the crate's own source mentions: an index, key or word that *equals* one of them is where a special case,
+/// an assertion about "obviously wrong" arguments or a mixed-up unit would sit (a card word used as an index, a table
+/// length used as a key ...)
+pub fn crate_constants() -> Vec<u64> {
+    let mut v: Vec<u64> = Vec::new();
+    for (_, w, _) in named_cards() {
+        v.extend([w as u64, w as u64 - 1, w as u64 + 1, (w >> 16) as u64, (w & 0xFFFF) as u64, (w & 0x3F) as u64]);
+    }
+    v.extend([
+        CardNumber::RANK_FLAG_FILTER as u64, CardNumber::SUIT_FILTER as u64, CardNumber::RANK_PRIME_FILTER as u64,
+        CardNumber::PAIR as u64, CardNumber::TRIPS as u64, CardNumber::QUADS as u64, CardNumber::MULTIPLES_FILTER as u64,
+        Five::POSSIBLE_COMBINATIONS as u64, Five::WHEEL_OR_BITS as u64, Five::STRAIGHT_PADDING as u64,
+        4887, 4888, 4889, 7461, 7462, 7463, 7936, 7937, 7938, 41 * 41 * 41 * 41 * 41, 41 * 41 * 41 * 41 * 37, 48, 47, 49,
+    ]);
+    for i in 0..52u32 {
+        v.push(1u64 << i);
+    }
+    v.sort_unstable();
+    v.dedup();
+    v
+}
+
 pub fn aliasing_indices() -> Vec<u64> {
-    let mut v = Vec::new();
+    let mut v = crate_constants();
     for k in (0u64..56).chain([63, 64, 255, 256]) {
         for j in [8u32, 16, 31, 32, 33, 48, 63] {
             for m in [1u64, 2, 3] {
@@ -1054,7 +1087,13 @@ fn find_keys(rng: &mut Rng, seeded: usize) -> Vec<u64> {
     #[cfg(contractbridge_ckc_rs_verif)]
     for p in ckc_rs::verif_hooks::PRODUCTS {
         keys.extend([p as u64 - 1, p as u64, p as u64 + 1]);
+        // the same key with bits above the 32-bit product: a narrowing conversion inside the search would alias it to a table key
+        for m in [1u64, 2, 7, 1 << 31] {
+            keys.push((m << 32).wrapping_add(p as u64));
+        }
+        keys.push((1u64 << 16 << 16 << 16).wrapping_add(p as u64));
     }
+    keys.extend(crate_constants());
     for k in 0..64 {
         let p = 1u64 << k;
         keys.extend([p.wrapping_sub(1), p, p.wrapping_add(1)]);
@@ -1989,6 +2028,14 @@ fn sweep_c20() -> Sweep {
     for &w in &deck {
         for m in 0u32..8 {
             let x = mark(m, w);
+            // every reader of the card: a mark must not change what any of them returns
+            s.evaluations += 1;
+            let readers = |c: u32| (c.get_card_rank(), c.get_card_suit(), c.get_rank_prime(), c.get_rank_bit(), c.get_rank_flag(), c.get_suit_bit(), c.get_suit_flag(),
+                c.get_rank_char(), c.get_suit_char(), c.get_suit_letter(), c.get_chen_points().to_bits(), c.next_suit());
+            match (guarded(|| readers(x)), guarded(|| readers(w))) {
+                (Some(a), Some(b)) if a == b => {}
+                (a, b) => s.fail("a reader returns something else for the marked card than for the card (rank, suit, prime, rank bit/flag, suit bit/flag, three characters, chen points, next suit)", &format!("{w} marks {m}"), &format!("{b:?}"), &format!("{a:?}")),
+            }
             let mut y = x;
             let via_mut = { let c: &mut u32 = &mut y; (c.flag_as_pair(), c.flag_as_trips(), c.flag_as_quads(), c.strip_multiples_flags(), c.get_card_rank(), c.get_card_suit(), c.get_rank_prime()) };
             let via_ref = { let c: &u32 = &x; (c.flag_as_pair(), c.flag_as_trips(), c.flag_as_quads(), c.strip_multiples_flags(), c.get_card_rank(), c.get_card_suit(), c.get_rank_prime()) };
@@ -2070,6 +2117,7 @@ fn sweep_c01(seed: u64, thorough: bool) -> Sweep {
     let all_orders: Vec<usize> = if thorough { Vec::new() } else { (0..120).collect() };
     let parts: Vec<(Sweep, Vec<bool>)> = par_ranges(48, 48, |lo, hi| {
         let mut s = Sweep::default();
+        let mut prev = Five::default();
         let mut seen = vec![false; 7463];
         for a in lo as usize..hi as usize {
             for b in a + 1..52 {
@@ -2089,8 +2137,19 @@ fn sweep_c01(seed: u64, thorough: bool) -> Sweep {
                                     (v, h.hand_rank_value(), h.hand_rank_value_validated(), ckc_rs::evaluate::five_cards(arr), h.hand_rank().value, hand.to_arr() == arr)
                                 });
                                 s.evaluations += 1;
-                                let good = got == Some((want, want, want, want, want, true));
-                                if !good {
+                                let mut good = got == Some((want, want, want, want, want, true));
+                                if p == perms[0] || every {
+                                    // the same words written slot by slot over the hand ranked just before
+                                    let via = five_via_setters(prev, arr);
+                                    prev = via;
+                                    s.evaluations += 1;
+                                    let g2 = guarded(|| (via.hand_rank_value(), via.hand_rank_value_validated(), via.hand_rank().value, via.to_arr() == arr));
+                                    if g2 != Some((want, want, want, true)) {
+                                        good = false;
+                                        s.fail("five-card value of a hand built with the setters differs from the strength ordinal (value, validated, hand_rank.value, slots as written)", &join(arr), &want.to_string(), &format!("{g2:?}"));
+                                    }
+                                }
+                                if got != Some((want, want, want, want, want, true)) {
                                     s.fail(
                                         "five-card value differs from the strength ordinal (and_hand, value, validated, five_cards, hand_rank.value, hand unchanged)",
                                         &join(arr),
@@ -2145,6 +2204,7 @@ fn sweep_c13(seed: u64, thorough: bool) -> Sweep {
     let all_orders: Vec<usize> = if thorough { Vec::new() } else { (0..120).collect() };
     let parts: Vec<Sweep> = par_ranges(48, 48, |lo, hi| {
         let mut s = Sweep::default();
+        let mut prev = Five::default();
         for a in lo as usize..hi as usize {
             for b in a + 1..52 {
                 for c in b + 1..52 {
@@ -2165,12 +2225,19 @@ fn sweep_c13(seed: u64, thorough: bool) -> Sweep {
                             for &p in if every { &all_orders } else { &perms } {
                                 let pm = perm5(p);
                                 let arr = [deck[idx[pm[0]]], deck[idx[pm[1]]], deck[idx[pm[2]]], deck[idx[pm[3]]], deck[idx[pm[4]]]];
-                                let h = Five::from(arr);
+                                // the same five words, built directly and by overwriting the slots of the hand examined just
+                                // before (anything a container derives from its slots at construction must follow the setters)
+                                let via = five_via_setters(prev, arr);
+                                prev = via;
+                                for (how, h) in [("", Five::from(arr)), (" (built with the setters from the previous hand)", via)] {
                                 s.evaluations += 1;
                                 let Some(got) = guarded(|| (h.is_flush(), h.is_straight(), h.is_straight_flush(), h.is_wheel(), ckc_rs::evaluate::is_flush(arr), ckc_rs::evaluate::or_rank_bits(arr) as u32)) else {
-                                    s.fail("a predicate panics on five distinct real cards", &join(arr), "returns", "panic");
+                                    s.fail(&format!("a predicate panics on five distinct real cards{how}"), &join(arr), "returns", "panic");
                                     continue;
                                 };
+                                if h.to_arr() != arr || h.or_rank_bits() != (ckc_rs::evaluate::or_rank_bits(arr) as u32) {
+                                    s.fail(&format!("slots / OR of the rank bits differ from the words put in{how}"), &join(arr), &join(arr), &format!("{} or_rank_bits {}", join(h.to_arr()), h.or_rank_bits()));
+                                }
                                 let want = (flush, straight, straight && flush, wheel, flush, mask);
                                 if got != want {
                                     s.fail("predicate differs from the cards (flush, straight, straight_flush, wheel, evaluate::is_flush, evaluate::or_rank_bits)", &join(arr), &format!("{want:?}"), &format!("{got:?}"));
@@ -2185,6 +2252,7 @@ fn sweep_c13(seed: u64, thorough: bool) -> Sweep {
                                     }
                                 } else {
                                     s.fail("hand_rank panics", &join(arr), "a rank", "panic");
+                                }
                                 }
                             }
                         }
@@ -2631,6 +2699,24 @@ fn sweep_sixseven(prop: &str, seed: u64, thorough: bool) -> Sweep {
             s.fail("ranking panics on distinct real cards", &join(&ws), "a value", "panic");
             return;
         };
+        if prop == "C02" && (idx[0] + idx[n - 1]) % 4 == 0 {
+            // the same words written slot by slot into a hand that held other cards before
+            let via = guarded(|| {
+                if n == 6 {
+                    let mut m = Six::from([deck[51 - idx[0]], deck[51 - idx[1]], deck[51 - idx[2]], deck[51 - idx[3]], deck[51 - idx[4]], deck[51 - idx[5]]]);
+                    m.set_first(ws[0]); m.set_second(ws[1]); m.set_third(ws[2]); m.set_forth(ws[3]); m.set_fifth(ws[4]); m.set_sixth(ws[5]);
+                    (m.hand_rank_value(), m.hand_rank_value_validated(), m.to_arr().to_vec())
+                } else {
+                    let mut m = Seven::from([deck[51 - idx[0]], deck[51 - idx[1]], deck[51 - idx[2]], deck[51 - idx[3]], deck[51 - idx[4]], deck[51 - idx[5]], deck[51 - idx[6]]]);
+                    m.set_first(ws[0]); m.set_second(ws[1]); m.set_third(ws[2]); m.set_forth(ws[3]); m.set_fifth(ws[4]); m.set_sixth(ws[5]); m.set_seventh(ws[6]);
+                    (m.hand_rank_value(), m.hand_rank_value_validated(), m.to_arr().to_vec())
+                }
+            });
+            s.evaluations += 1;
+            if via != Some((best, best, ws.clone())) {
+                s.fail(&format!("{n}-card hand built with the setters: value is not the best five-card value it contains (value, validated, slots)"), &join(&ws), &best.to_string(), &format!("{via:?}"));
+            }
+        }
         match prop {
             "C02" => {
                 if !(v == best && v2 == best && vv == best && v3 == best && v4 == best) {
@@ -3324,6 +3410,21 @@ fn sweep_c17() -> Sweep {
         if got != Some(want) {
             s.fail("chen_formula / helpers differ from the Chen formula (score, gap, connector, pair, suited, suited connector, high card)", &format!("{a} {b}"), &format!("{want:?}"), &format!("{got:?}"));
         }
+        // the same pair reached through every constructor and through the setters (from a hand that held two other cards)
+        let other = (layout_word((r1 + 5) % 13, (s1 + 1) % 4), layout_word((r2 + 7) % 13, (s2 + 2) % 4));
+        let built = guarded(|| {
+            let mut m = Two::new(other.0, other.1);
+            m.set_first(a);
+            m.set_second(b);
+            let mut n = Two::default();
+            n.set_second(b);
+            n.set_first(a);
+            [Two::from([a, b]), Two::from(&[a, b]), m, n].map(|t| (t.to_arr(), t.chen_formula(), t.get_gap(), t.is_connector(), t.is_pocket_pair(), t.is_suited(), t.is_suited_connector(), t.high_card()))
+        });
+        match built {
+            Some(rows) if rows.iter().all(|r| *r == ([a, b], want.0, want.1, want.2, want.3, want.4, want.5, want.6)) => {}
+            other => s.fail("a pair built with From / the setters: slots, score or helpers differ from the Chen formula", &format!("{a} {b}"), &format!("{want:?}"), &format!("{other:?}")),
+        }
         let swapped = guarded(|| Two::new(b, a).chen_formula());
         let shifted = guarded(|| t.shift_suit().chen_formula());
         if swapped != Some(want.0) || shifted != Some(want.0) {
@@ -3774,8 +3875,66 @@ fn history_check(s: &mut Sweep, oracle: &Oracle5, deck: &[u32; 52], before: &[u3
     }
 }
 
+/// the Chen score of two distinct real cards given as (rank 0..13, suit) pairs, in integer half-points
+fn chen_spec(r1: u32, s1: u32, r2: u32, s2: u32) -> i8 {
+    let (hi, lo) = (r1.max(r2) + 2, r1.min(r2) + 2);
+    let base2: i32 = match hi { 14 => 20, 13 => 16, 12 => 14, 11 => 12, r => r as i32 };
+    let mut p2 = if hi == lo {
+        (2 * base2).max(10)
+    } else {
+        let gap = hi - lo - 1;
+        let pen2 = match gap { 0 => 0, 1 => 2, 2 => 4, 3 => 8, _ => 10 };
+        base2 - pen2 + if gap < 2 && hi < 12 { 2 } else { 0 }
+    };
+    if s1 == s2 { p2 += 4; }
+    (p2 + 1).div_euclid(2) as i8
+}
+
+/// C17 with state in the source: score one pair (also pairs holding a blank or a word that is not a card), then every
+/// ordered pair of real cards, in a fresh process; a score that depends on what was scored before shows here
+fn history_c17(seed: u64) -> Sweep {
+    let mut s = Sweep::default();
+    s.rule = "one call of chen_formula on a first pair (every ordered pair over cards, blank and words that are not cards), then all 2,652 ordered pairs of real cards against the Chen formula".into();
+    let mut rng = Rng::new(seed ^ 0x4117);
+    let mut firsts: Vec<(u32, u32)> = Vec::new();
+    let mut sym: Vec<u32> = vec![0];
+    sym.extend(not_card_words(&mut rng, 6));
+    let cards: Vec<(u32, u32, u32)> = (0u32..13).flat_map(|r| (0u32..4).map(move |su| (r, su, layout_word(r, su)))).collect();
+    for (_, _, w) in &cards {
+        for x in &sym {
+            firsts.push((*w, *x));
+            firsts.push((*x, *w));
+        }
+    }
+    for x in &sym { for y in &sym { firsts.push((*x, *y)); } }
+    for (_, _, a) in &cards { for (_, _, b) in &cards { if a != b { firsts.push((*a, *b)); } } }
+    let t0 = std::time::Instant::now();
+    for (fa, fb) in firsts {
+        if s.failure_count >= 8 || t0.elapsed().as_secs() > 60 { break; }
+        let _ = guarded(|| Two::new(fa, fb).chen_formula());
+        for (r1, s1, a) in &cards {
+            for (r2, s2, b) in &cards {
+                if a == b { continue; }
+                s.evaluations += 1;
+                let want = chen_spec(*r1, *s1, *r2, *s2);
+                let got = guarded(|| Two::new(*a, *b).chen_formula());
+                if got != Some(want) {
+                    s.fail("the score depends on the call before it", &format!("after scoring {fa} {fb} : {a} {b}"), &want.to_string(), &format!("{got:?}"));
+                    break;
+                }
+            }
+        }
+    }
+    s.nontrivial = s.evaluations;
+    s.sample(format!("{} scored pairs in {:.1} s", s.evaluations, t0.elapsed().as_secs_f64()));
+    s
+}
+
 pub fn history(prop: &str, seed: u64) -> Sweep {
     let mut s = Sweep::default();
+    if prop == "C17" {
+        return history_c17(seed);
+    }
     if !matches!(prop, "C01" | "C02" | "C03" | "C04" | "C05" | "C06" | "C08" | "C09" | "C13") {
         s.rule = "no history search is defined for this property".into();
         s.samples.push(Json::esc("(none)"));
